@@ -210,6 +210,7 @@ func jobMap(j *jobCtx) {
 		bigMap(j, k, j.r)
 		scaleMap(j, k)
 		churnMap(j, k)
+		simMap(j, k) // behaviours generated by TLC's simulator from the implementation-shaped models, replayed here
 		if k == "btree" {
 			for _, bad := range []int{2, 1, 0, -3} {
 				bad := bad
